@@ -10,8 +10,12 @@ nothing about the key schedule or the tables is assumed except that both directi
 For the four Triple-DES types Des::encrypt / Des::decrypt are summarised as an opaque inverse pair, which makes
 the proof exactly "decryption is the mirrored composition" (clause a).
 
-Types whose inverse relies on algebra outside the rewrite system (AES, ARIA, IDEA, Serpent, Kuznyechik, GIFT, the
-DES core, 48/96-bit Speck words on a wider carrier) are reported as *undecided*, not as passes.
+Bit-level mode (engine L3b, bitform.py; table BITLEVEL below): the fixsliced software AES, Serpent, the DES core and
+GIFT need GF(2)-affine reasoning (bit permutations, bitsliced linear layers) and bitsliced S-boxes; their S-box pairs
+are first proved mutually inverse by truth tables and then used as position-wise opaque inverse pairs.
+
+Types whose inverse relies on algebra outside both rewrite systems (AES-NI / ARMv8 AES, ARIA, IDEA, Kuznyechik,
+48/96-bit Speck words on a wider carrier) are reported as *undecided*, not as passes.
 
 BelT wide block: belt_wblock_dec(belt_wblock_enc(d)) = d and the other order are proved the same way on a symbolic
 buffer for every enumerated length (quick: 32..=49, 63..65, 100; thorough: 32..=129, 255..257); other lengths are not
